@@ -262,6 +262,41 @@ theorem traced_types_depend_on_the_set (k : Nat) (tr1 tr2 : List CTrace) (hs : S
     obtain ⟨tr, htr, t0, ht0, rfl⟩ := (mem_yldTypes k tr1 t).mp ht
     exact enforce_wf k t0 ((hw tr htr).2.2 t0 ht0)
 
+
+/-- two annotations agree: both absent, the same source annotation, or traced types that are `==` -/
+def agreeAnn : Option Anno.Ann → Option Anno.Ann → Prop
+  | none, none => True
+  | some (.src a), some (.src b) => a = b
+  | some (.ty a), some (.ty b) => Ty.eqv a b = true
+  | _, _ => False
+
+theorem updateArg_agree (st : Anno.Strategy) (src : Option Nat) (isSelf : Bool) (t1 t2 : Option Ty) (h : agree t1 t2) :
+    agreeAnn (Anno.updateArg st { src := src, traced := t1, isSelf := isSelf })
+             (Anno.updateArg st { src := src, traced := t2, isSelf := isSelf }) := by
+  cases t1 <;> cases t2 <;> simp only [agree] at h <;>
+    cases st <;> cases src <;> cases isSelf <;> simp_all [Anno.updateArg, agreeAnn]
+
+/-- C14 for the parameters of a whole definition, without a rewriter (`--disable-type-rewriting`): the traces in another order, with
+    repetitions, from other batches give, position by position, the same outcome — no annotation, the source's annotation, or traced
+    types that are equal as Python compares types -/
+theorem definition_params_depend_on_the_set (h : Hier) (k : Nat) (st : Anno.Strategy) (f : FuncSrc) (tr1 tr2 : List CTrace)
+    (hs : SetEq tr1 tr2)
+    (hw : ∀ tr ∈ tr1, (∀ a ∈ tr.args, a.2.wf = true) ∧ (∀ t, tr.ret = some t → t.wf = true) ∧ (∀ t, tr.yld = some t → t.wf = true))
+    (i : Nat) (p : SrcParam) (hp : f.params[i]? = some p) :
+    ∃ a1 a2, (updatedDefinition h [] k st f tr1).params[i]? = some (p.name, a1) ∧
+             (updatedDefinition h [] k st f tr2).params[i]? = some (p.name, a2) ∧ agreeAnn a1 a2 := by
+  have hag := (traced_types_depend_on_the_set k tr1 tr2 hs hw).1 p.name
+  have hid : ∀ (l : List (String × Ty)), l.map (fun nt => (nt.1, rewriteChain h [] nt.2)) = l := by
+    intro l; induction l with
+    | nil => rfl
+    | cons x xs ih => simp [rewriteChain]
+  refine ⟨Anno.updateArg st (posOf f ((shrinkTraced k tr1).1.map (fun nt => (nt.1, rewriteChain h [] nt.2))) p i),
+          Anno.updateArg st (posOf f ((shrinkTraced k tr2).1.map (fun nt => (nt.1, rewriteChain h [] nt.2))) p i), ?_, ?_, ?_⟩
+  · simp [updatedDefinition, List.getElem?_zipIdx, hp]
+  · simp [updatedDefinition, List.getElem?_zipIdx, hp]
+  · simp only [hid, posOf]
+    exact updateArg_agree st p.src _ _ _ hag
+
 /-- non-vacuity: two traces of `f(a, b)` / `f(a)` in both orders -/
 example : ((shrinkTraced 0 [⟨[("a", .cls intC), ("b", .cls strC)], some (.cls noneC), none⟩, ⟨[("a", .cls strC)], none, none⟩]).1.lookup "a").any
       (fun t => Ty.beq' t (.union [.cls intC, .cls strC])) = true := by decide +kernel
